@@ -93,6 +93,26 @@ Definition keys_only (sels : list loc) : bool :=
                     | _ => forallb (fun p => match p with PKey _ => true | PIdx _ => false end) l
                     end) sels.
 
+(* the widest domain the theorems cover (proofs/ProjectNested.v): selections in any order, repeated or
+   nested in one another, provided that below an already selected node only member names follow
+   (and array indices arrive ascending) *)
+Definition all_keys (l : loc) : bool := forallb (fun p => match p with PKey _ => true | PIdx _ => false end) l.
+
+Fixpoint rem_prefix (a b : loc) : option loc :=
+  match a, b with
+  | [], _ => Some b
+  | x :: a', y :: b' => if part_eqb x y then rem_prefix a' b' else None
+  | _ :: _, [] => None
+  end.
+
+Definition nested_keys (ls : list loc) : bool :=
+  forallb (fun a => forallb (fun b => match rem_prefix a b with Some t => all_keys t | None => true end) ls) ls.
+
+
+Definition selections_deep_ok (sels : list loc) : bool :=
+  forallb (fun l => match l with [] => false | _ => true end) sels && nested_keys sels && ascending sels.
+
+
 (* flat projection: the selected values in selection order *)
 Definition project_flat (vals : list json) : option json :=
   match vals with [] => None | _ => Some (JArr vals) end.
